@@ -295,6 +295,8 @@ class Doc:
             payload = head + b"\n".join(bodies) + b"\n"
             stm = Stream({"Type": Name("ObjStm"), "N": len(order), "First": len(head), "Filter": Name("FlateDecode")},
                          zlib.compress(payload))
+            if getattr(self, "container_hook", None):
+                self.container_hook("objstm", stm.d)     # fault injection into the writer-made dictionary
             stm_n = nextn
             nextn += 1
             write_obj(stm_n, stm)
@@ -334,6 +336,8 @@ class Doc:
         if xref_compress:
             d["Filter"] = Name("FlateDecode")
             data = zlib.compress(data)
+        if getattr(self, "container_hook", None):
+            self.container_hook("xref", d)
         out += ser_indirect(xn, 0, Stream(d, data))
         out += b"startxref" + eol + b"%d" % startxref + eol + b"%%EOF" + eol
         return bytes(out)
